@@ -61,6 +61,18 @@ from ..c08_util import (WRITER, WRITE_THREAD, COMPRESSOR, OUTPUT_FORMAT, is_exit
                         helper_bodies, role_ids, role_ids_may, work_functions, atom_guards, false_edge_of, must_bits_at)
 from ..flow import path_search, describe_path
 
+
+def inlined(fb, fn):
+    """fn with the private methods of its class (called on this) inlined into its CFG (helper-inlined normal form shared with
+    C09: a step function driving a loop, a tail split off into a method ... read like the unsplit code); fn itself when the
+    normaliser cannot handle the body."""
+    try:
+        from ..c09_util import normalized
+        g = normalized(fb, fn)
+        return g if g is not None and getattr(g, 'has_cfg', False) else fn
+    except Exception:      # noqa: BLE001 -- the original body is always a valid (if less general) input for the rules
+        return fn
+
 # genuine findings on the pristine tree: (rule, key, explanation)
 KNOWN = []
 
@@ -368,7 +380,7 @@ def close_rules(fb, R):
             R.broken('%s::close not found' % rec.q)
             continue
         for fn in fns:
-            _close_one(fb, R, rec, fn)
+            _close_one(fb, R, rec, inlined(fb, fn))
 
 
 def _is_layer_call(n):
@@ -604,7 +616,9 @@ def _write_thread_handler(fb, R, fn, key, h3):
 def _write_thread_loop(fb, R, fn0, key, roles):
     rule = 'T3-write-thread-loop'
     # ---- every chunk: decided in the function that contains the pop (operator() or the private method holding the loop)
-    loopfns = [(g, [n for n in g.all_nodes() if _p_pop(g, n)]) for g in work_functions(fb, fn0)]
+    loopfns = [(g, [n for n in g.all_nodes() if _p_pop(g, n)]) for g in [inlined(fb, fn0)]]
+    if not loopfns[0][1]:
+        loopfns = [(g, [n for n in g.all_nodes() if _p_pop(g, n)]) for g in work_functions(fb, fn0)]
     loopfns = [(g, ps) for (g, ps) in loopfns if ps]
     if len(loopfns) != 1:
         R.broken('WriteThread: pops from the input queue found in %d functions, expected one' % len(loopfns))
